@@ -297,6 +297,12 @@ def analyse(prog, rep):
     # ---- R-C14-e
     forced = [ev for ev in I.events if ev.kind == "call" and ev["method"] == "items" and (ev["args"] or ev["kwargs"])]
     rep.check(not forced, "R-C14-e", where, "entries are iterated with items() and no force argument", "", "items(force=...) is used: the common category would be presented")
+    half = [ev for ev in I.events if ev.kind == "call" and ev["method"] in ("keys", "values") and ev["recv"] is not None and tm.contains(ev["recv"], lambda x: x == dims)
+            and any(I.loopinfo[l].get("iter") is not None and tm.contains(I.loopinfo[l]["iter"], lambda y: y.op == "call" and tm.callee_name(y) in (".keys", ".values") and tm.contains(y, lambda z: z == dims)) for l in I.loopinfo)]
+    if half:
+        rep.violated("R-C14-e", "%s@%d" % (where, half[0].line), "entries are iterated as (coordinates, row ids) pairs",
+                     "a loop of the walk runs over %s() of a dimension: the (coordinates, row ids) pair it unpacks is not an entry" % half[0]["method"],
+                     witness={"inputs": "any 2-dimensional cube: the first loop unpacks a coordinate tuple into (coords, rowids)"})
     reads_common = [ev for ev in I.events for v in ev.d.values() if isinstance(v, T) and tm.contains(v, lambda x: x.op == "attr" and x.args[1] == "common")]
     rep.check(not reads_common, "R-C14-e", where, "_walk never reads .common", "", "a dimension's common value is consulted inside the walk")
     getc = [ev for ev in I.events if ev.kind == "call" and ev["method"] in ("common_rowids", "get") and ev["recv"] is not None and tm.contains(ev["recv"], lambda x: x == dims)]
